@@ -253,6 +253,29 @@ func runC02(c *Ctx) {
 			decode(c, n.CashAddressPrefix[:i]+"\u017f"+n.CashAddressPrefix[i+1:]+":"+body, net)
 		}
 	}
+	// alphanumerics outside the alphabet (b i o 1) at one position x every symbol at the position before it: a decoder
+	// that lets them through as some value makes a second string decode to the same address
+	for k := 0; k < c.Pick(2, 12); k++ {
+		net := 1 + k%len(nets)
+		n := nets[net-1]
+		body := refCashString(n.CashAddressPrefix, refTo5(append([]byte{[]byte{0, 8}[k%2]}, randBytes(r, 20)...), 0))
+		for p := 1; p < len(body); p++ {
+			if !c.Thorough() && body[p] != 'l' && (p+k+int(c.Seed))%5 != 0 {
+				continue
+			}
+			for _, f := range []byte("bio1") {
+				for v := 0; v < 32; v++ {
+					m := []byte(body)
+					m[p], m[p-1] = f, b32alpha[v]
+					if k%2 == 0 {
+						decode(c, string(m), net)
+					} else {
+						decode(c, n.CashAddressPrefix+":"+string(m), net)
+					}
+				}
+			}
+		}
+	}
 	// white space around a valid cash address (with and without the prefix)
 	for k := 0; k < c.Pick(6, 60); k++ {
 		net := 1 + k%len(nets)
